@@ -34,7 +34,7 @@ x0, x1 = ["el", _x, 0], ["el", _x, 1]
 P_, Q_ = ["par", "p"], ["par", "q"]
 PV = [0.5, 1.0, 1.5, 2.0, 3.0]
 QV = [-1.0, -0.5, 0.5, 1.0, 2.0]
-SPD = [[[2.0, 0.5], [0.5, 1.0]], [[1.0, 0.0], [0.0, 4.0]], [[3.0, -1.0], [-1.0, 2.0]], [[1.5, 0.25], [0.25, 0.75]]]
+SPD = [[[2.0, 0.5], [0.5, 1.0]], [[1.0, 0.0], [0.0, 4.0]], [[3.0, -1.0], [-1.0, 2.0]], [[1.5, 0.25], [0.25, 0.75]], [[1.0, 0.0], [0.0, 1.0]]]
 
 
 def sq(e):
@@ -109,7 +109,21 @@ def info(tier):
 
 
 def run_history(rec, rng, twin, mname, length):
+    import copy
+
     decls, obj, cons, sense = model(mname)
+    decls = copy.deepcopy(decls)
+    # initial parameter values vary per history and include structural values (0 / 1 entries, identity and diagonal
+    # matrices): an expression whose *shape* was decided from the initial values must still follow later updates
+    for d in decls:
+        if d["k"] == "par":
+            d["val"] = rng.choice(PV if d["name"] == "p" else QV + [0.0, 1.0])
+        elif d["k"] == "vpar":
+            d["vals"] = [rng.choice([0.0, 0.0, 1.0, -2.0, 0.5]) for _ in d["vals"]]
+            if mname == "vector-param":
+                d["vals"][2] = rng.choice([-1.0, 0.0, 0.5])
+        elif d["k"] == "mpar":
+            d["vals"] = [list(r) for r in rng.choice([SPD[1], SPD[4], SPD[0]])]
     D = R.Decls(decls)
     prob = {"decls": decls, "objective": obj, "sense": sense, "constraints": cons}
     b = B.Builder(decls)
